@@ -63,6 +63,7 @@ package cdcn
 
 // the scanner only puts tokens built by Token().Make on the queue, each with a line inside the source
 //@ declare nlines(Str) Int
+//@ declare tokmatch(Int, Str) Str
 //@ assume func strings.Split
 //@   nopanic
 //@   ensures fresh(result) && len(result) == nlines($1) && len(result) >= 1
@@ -117,12 +118,23 @@ package cdcn
 //@   ensures[C12] result.2 ==> ttype(result.1) == expectedType && result.0 == tvalue(result.1)
 
 // every parse* method returns the token at which it stopped (never nil): the callers hand it to formatError
+// accepted literals are never silently altered: the value is exactly what the token text denotes
+// (token types: boolean 1, complex 2, float 6, hexadecimal 7, integer 8, nil 9, rune 10, string 12)
 //@ func (*parser_).parseIntrinsic
 //@   props C12 C11
 //@   safe
 //@   requires pready(this)
 //@   modifies view(this.next_), view(this.tokens_)
 //@   ensures[C12] result.1 != nil && pready(this)
+//@   ensures[C11] result.2 ==> ttype(result.1) == 1 || ttype(result.1) == 2 || ttype(result.1) == 6 || ttype(result.1) == 7 || ttype(result.1) == 8 || ttype(result.1) == 9 || ttype(result.1) == 10 || ttype(result.1) == 12
+//@   ensures[C11] result.2 && ttype(result.1) == 1 ==> pbool_ok(tvalue(result.1)) && result.0 == box(pbool_val(tvalue(result.1)))
+//@   ensures[C11] result.2 && ttype(result.1) == 2 ==> pcplx_ok(tvalue(result.1)) && result.0 == box(pcplx_val(tvalue(result.1)))
+//@   ensures[C11] result.2 && ttype(result.1) == 6 ==> pfloat_ok(tvalue(result.1)) && result.0 == box(pfloat_val(tvalue(result.1)))
+//@   ensures[C11] result.2 && ttype(result.1) == 7 ==> phex_ok(ssub(tvalue(result.1), 2, len(tvalue(result.1)))) && result.0 == box(phex_val(ssub(tvalue(result.1), 2, len(tvalue(result.1)))))
+//@   ensures[C11] result.2 && ttype(result.1) == 8 ==> pint_ok(tvalue(result.1)) && result.0 == box(pint_val(tvalue(result.1)))
+//@   ensures[C11] result.2 && ttype(result.1) == 9 ==> result.0 == nil
+//@   ensures[C11] result.2 && ttype(result.1) == 10 ==> unq_ok(tokmatch(10, tvalue(result.1))) && result.0 == box(drune(unq_val(tokmatch(10, tvalue(result.1)))))
+//@   ensures[C11] result.2 && ttype(result.1) == 12 ==> unq_ok(tokmatch(12, tvalue(result.1))) && result.0 == box(unq_val(tokmatch(12, tvalue(result.1))))
 //@ func (*parser_).parseKey
 //@   props C12
 //@   safe
@@ -258,6 +270,7 @@ package cdcn
 //@   nopanic
 //@   ensures fresh(result) && result != nil
 //@   ensures forall i :: 0 <= i && i < len(view(result)) ==> runes(unboxStr(view(result)[i])) <= runes(text)
+//@   ensures len(view(result)) > 0 ==> unboxStr(view(result)[0]) == tokmatch(type_, text)
 
 //@ type *scanner_
 //@   invariant[C12] 0 <= this.first_ && this.first_ <= this.next_ && this.next_ <= len(this.runes_) && this.line_ >= 1 && this.line_ <= 1 + this.next_ && this.tokens_ != nil
@@ -345,13 +358,16 @@ package cdcn
 //@   modifies sbtext(fieldaddr(this, result_))
 //@   ensures[C10] fbuf(this) == "" && result == old(fbuf(this))
 
+// FormatValue does not depend on the state earlier calls (also failed ones) left behind: whatever the entry state,
+// the traversal starts from depth 0 and an empty buffer (hint after the reset), and a normal exit leaves that state again.
 //@ func (*formatter_).FormatValue
 //@   props C10
 //@   safe
-//@   requires this.depth_ == 0 && fbuf(this) == ""
+//@   noinv
+//@   requires this.maximum_ >= 0
 //@   modifies this.depth_, sbtext(fieldaddr(this, result_))
+//@   hint call1: this.depth_ == 0 && fbuf(this) == ""
 //@   ensures[C10] this.depth_ == 0 && fbuf(this) == ""
-//@   xensures[C10] this.depth_ == 0 && fbuf(this) == ""
 
 //@ func (*formatter_).formatValue
 //@   props C10
@@ -431,3 +447,42 @@ package cdcn
 //@   loop 1:
 //@     invariant this.depth_ == old(this.depth_) + 1 && this.depth_ <= this.maximum_
 //@     decreases *
+
+// ---------------------------------------------------------------- literal exactness (C11)
+
+// assumed contracts of strconv: a conversion fails exactly when the text has no exact representation,
+// and otherwise returns the value the text denotes (spec functions *_ok / *_val)
+//@ declare pbool_ok(Str) Bool
+//@ declare pbool_val(Str) Bool
+//@ declare pint_ok(Str) Bool
+//@ declare pint_val(Str) Int
+//@ declare phex_ok(Str) Bool
+//@ declare phex_val(Str) Int
+//@ declare pfloat_ok(Str) Bool
+//@ declare pfloat_val(Str) F64
+//@ declare pcplx_ok(Str) Bool
+//@ declare pcplx_val(Str) Cplx
+//@ declare unq_ok(Str) Bool
+//@ declare unq_val(Str) Str
+//@ declare drune(Str) Int
+//@ assume func strconv.ParseBool
+//@   nopanic
+//@   ensures (result.1 == nil <==> pbool_ok($1)) && (result.1 == nil ==> (result.0 <==> pbool_val($1)))
+//@ assume func strconv.ParseInt
+//@   nopanic
+//@   ensures $2 == 10 && $3 == 64 ==> (result.1 == nil <==> pint_ok($1)) && (result.1 == nil ==> result.0 == pint_val($1))
+//@ assume func strconv.ParseUint
+//@   nopanic
+//@   ensures $2 == 16 && $3 == 64 ==> (result.1 == nil <==> phex_ok($1)) && (result.1 == nil ==> result.0 == phex_val($1))
+//@ assume func strconv.ParseFloat
+//@   nopanic
+//@   ensures $2 == 64 ==> (result.1 == nil <==> pfloat_ok($1)) && (result.1 == nil ==> result.0 == pfloat_val($1))
+//@ assume func strconv.ParseComplex
+//@   nopanic
+//@   ensures $2 == 128 ==> (result.1 == nil <==> pcplx_ok($1)) && (result.1 == nil ==> result.0 == pcplx_val($1))
+//@ assume func strconv.Unquote
+//@   nopanic
+//@   ensures (result.1 == nil <==> unq_ok($1)) && (result.1 == nil ==> result.0 == unq_val($1))
+//@ assume func utf8.DecodeRuneInString
+//@   nopanic
+//@   ensures result.0 == drune($1)
